@@ -133,11 +133,13 @@ theorem parseDecimalL_canon (neg : Bool) (I F : List Char) (hI : allDigits I = t
   | false =>
     obtain ⟨c, r, rfl, hc, hr⟩ := allDigits_cons hI
     have hc' : c ≠ '-' := (isDig_ne hc).2.1
+    have hc'' : c ≠ '+' := (isDig_ne hc).2.2.1
     have hs := splitAtChar_append '.' (c :: r) F hnd
     simp only [Bool.false_eq_true, if_false, List.nil_append]
     unfold parseDecimalL
     rw [hs]
-    simp only [parseInt64_digits _ hI hIv, hF', hlen, if_false]
+    have hplus : (((c :: r) ++ '.' :: F).head? == some '+') = false := by simp [hc'']
+    simp only [hplus, Bool.false_eq_true, parseInt64_digits _ hI hIv, hF', hlen, if_false]
     simp [hc']
   | true =>
     have hs := splitAtChar_append '.' ('-' :: I) F (by
@@ -147,7 +149,8 @@ theorem parseDecimalL_canon (neg : Bool) (I F : List Char) (hI : allDigits I = t
     simp only [if_true, List.singleton_append]
     unfold parseDecimalL
     rw [show '-' :: (I ++ '.' :: F) = ('-' :: I) ++ '.' :: F from rfl, hs]
-    simp only [parseInt64_neg_digits _ hI (by unfold maxI64 at hIv; omega), hF', hlen, if_false]
+    have hplus : ((('-' :: I) ++ '.' :: F).head? == some '+') = false := by simp
+    simp only [hplus, Bool.false_eq_true, parseInt64_neg_digits _ hI (by unfold maxI64 at hIv; omega), hF', hlen, if_false]
     simp
 
 
@@ -208,20 +211,23 @@ theorem parseDecimalL_ok_inI64 {cs : List Char} {d : Int} (h : parseDecimalL cs 
   unfold parseDecimalL at h
   split at h
   · cases h
-  · split at h
+  · rename_i ip fp _
+    split at h
     · cases h
     · split at h
       · cases h
-      · rename_i _ _ fp _ _ _ _ _ f hf
-        obtain ⟨hd, rfl, _⟩ := parseUintMax_some hf
-        split at h
+      · split at h
         · cases h
-        · rename_i hl
-          have hp := frac_scaled_le fp hd (by omega)
-          simp only at h
+        · rename_i f hf
+          obtain ⟨hd, rfl, _⟩ := parseUintMax_some hf
           split at h
-          · exact (newDecimal_ok (by omega) h).2
-          · exact (newDecimal_ok (by omega) h).2
+          · cases h
+          · rename_i hl
+            have hp := frac_scaled_le fp hd (by omega)
+            simp only at h
+            split at h
+            · exact (newDecimal_ok (by omega) h).2
+            · exact (newDecimal_ok (by omega) h).2
 
 /-! ### round trip -/
 
